@@ -87,13 +87,13 @@ Section Lex.
       else if valid_ident w then Some [KIdent w]
       else None in
     match w with
-    | 33%N :: rest =>          (* '!' *)
-      if infix then
+    | c :: rest =>
+      if (c =? 33)%N && infix then          (* '!' *)
         if valid_ident w then Some [KIdent w]
         else if valid_ident rest then Some [KIdent (ss "!"); KIdent rest]
         else plain
       else plain
-    | _ => plain
+    | [] => plain
     end.
 
   Fixpoint lex_loop (fuel : nat) (infix : bool) (s : str) : option (list tok) :=
